@@ -212,22 +212,19 @@ static ares_status_t parse_sort(ares_buf_t *buf, struct apattern *pat)
 ares_status_t ares_parse_sortlist(struct apattern **sortlist, size_t *nsort,
                                   const char *str)
 {
-  ares_buf_t   *buf    = NULL;
-  ares_status_t status = ARES_SUCCESS;
-  ares_array_t *arr    = NULL;
-  size_t        num    = 0;
-  size_t        i;
+  ares_buf_t      *buf      = NULL;
+  ares_status_t    status   = ARES_SUCCESS;
+  ares_array_t    *arr      = NULL;
+  size_t           num      = 0;
+  size_t           i;
+  /* Parse into a temporary list so that a malformed string can't destroy a
+   * previously parsed, valid sortlist. */
+  struct apattern *new_sort = NULL;
+  size_t           new_cnt  = 0;
 
   if (sortlist == NULL || nsort == NULL || str == NULL) {
     return ARES_EFORMERR; /* LCOV_EXCL_LINE: DefensiveCoding */
   }
-
-  if (*sortlist != NULL) {
-    ares_free(*sortlist);
-  }
-
-  *sortlist = NULL;
-  *nsort    = 0;
 
   buf = ares_buf_create_const((const unsigned char *)str, ares_strlen(str));
   if (buf == NULL) {
@@ -266,7 +263,7 @@ ares_status_t ares_parse_sortlist(struct apattern **sortlist, size_t *nsort,
       continue;
     }
 
-    if (!sortlist_append(sortlist, nsort, &pat)) {
+    if (!sortlist_append(&new_sort, &new_cnt, &pat)) {
       status = ARES_ENOMEM; /* LCOV_EXCL_LINE: OutOfMemory */
       goto done;            /* LCOV_EXCL_LINE: OutOfMemory */
     }
@@ -279,12 +276,17 @@ done:
   ares_array_destroy(arr);
 
   if (status != ARES_SUCCESS) {
-    ares_free(*sortlist);
-    *sortlist = NULL;
-    *nsort    = 0;
+    /* Leave the caller's list as it was */
+    ares_free(new_sort);
+    return status;
   }
 
-  return status;
+  /* Only now replace whatever the caller had */
+  ares_free(*sortlist);
+  *sortlist = new_sort;
+  *nsort    = new_cnt;
+
+  return ARES_SUCCESS;
 }
 
 static ares_status_t config_search(ares_sysconfig_t *sysconfig, const char *str,
